@@ -109,12 +109,42 @@ def pretty(fn, body=None):
 # ------------------------------------------------------------------------------------------------
 # CFG
 # ------------------------------------------------------------------------------------------------
-def successors(block, unwind=False):
+def const_locals(body):
+    """locals assigned exactly once, from a bool/int constant"""
+    cnt, val = {}, {}
+    for b in body["blocks"]:
+        for st in b["s"]:
+            if st[0] == "=" and isinstance(st[1], int):
+                cnt[st[1]] = cnt.get(st[1], 0) + 1
+                rv = st[2]
+                if rv[0] == "use" and rv[1].get("k") == "const" and isinstance(rv[1].get("v"), (bool, int)):
+                    val[st[1]] = int(rv[1]["v"])
+        t = b["t"]
+        if t[0] == "call" and isinstance(t[1]["dest"], int):
+            cnt[t[1]["dest"]] = cnt.get(t[1]["dest"], 0) + 1
+    return {l: v for l, v in val.items() if cnt.get(l) == 1}
+
+
+def successors(block, unwind=False, consts=None):
     t = block["t"]
     k = t[0]
+    if k == "switch" and consts and t[1].get("k") in ("copy", "move") and isinstance(t[1]["pl"], int) and t[1]["pl"] in consts:
+        x = consts[t[1]["pl"]]
+        for v, b in t[2]:
+            if v == x:
+                return [b]
+        return [t[3]]
     if k == "goto":
         return [t[1]]
     if k == "switch":
+        d = t[1]
+        if d.get("k") == "const" and isinstance(d.get("v"), (bool, int)):
+            # `if false { .. }` (e.g. tracing's type-hint block): only the matching edge is feasible
+            x = int(d["v"])
+            for v, b in t[2]:
+                if v == x:
+                    return [b]
+            return [t[3]]
         return [b for _, b in t[2]] + [t[3]]
     if k == "call":
         c = t[1]
@@ -137,7 +167,8 @@ class Cfg:
         self.body = body
         self.blocks = body["blocks"]
         n = len(self.blocks)
-        self.succ = [successors(b, unwind) for b in self.blocks]
+        consts = const_locals(body)
+        self.succ = [successors(b, unwind, consts) for b in self.blocks]
         self.pred = [[] for _ in range(n)]
         for i, ss in enumerate(self.succ):
             for s in ss:
